@@ -175,6 +175,9 @@ struct Program {
 const WORDS: &[&str] = &[
     "request_count", "bytes_in", "latency", "status", "operation", "retry_attempts", "cache_hit", "payload_size", "region", "shard_id", "total", "p99_wait", "queue_depth", "error", "http2_frames", "a", "db_time",
     "io_2xx_count", "x__y", "e2e_p99_9",
+    // (identifiers that start with a run of capitals: inflecting "prefix + name" is not the same as
+    // inflecting the two separately)
+    "ID_count", "TTL_secs", "HTTPStatus", "Q",
 ];
 // (acronym runs, digits and underscores: the inflector is not the identity on these, in any style)
 const VARIANT_WORDS: &[&str] = &["ReadData", "WriteData", "Delete", "ListObjects", "Get", "HeadBucket", "Scan2", "HTTPError", "DBTimeout", "Read_only", "IOError2", "S3Upload", "XMLHttpRequest", "ALLCAPS", "lower_case"];
@@ -352,7 +355,7 @@ impl Gen<'_> {
             variants.push(VariantDef { ident, name: if self.rng.below(4) == 0 { Some(format!("variant_{}", self.rng.pick(WORDS))) } else { None }, data });
         }
         let tag = if self.rng.below(3) != 0 {
-            Some(TagDef { name: self.rng.pick(&["operation", "op_kind", "Kind", "request-type"]).to_string(), exact: self.rng.bool(), sample_group: self.rng.below(3) == 0 })
+            Some(TagDef { name: self.rng.pick(&["operation", "op_kind", "Kind", "request-type", "HTTPMethod", "API_call", "ID"]).to_string(), exact: self.rng.bool(), sample_group: self.rng.below(3) == 0 })
         } else {
             None
         };
@@ -678,7 +681,7 @@ fn fields_src(p: &Program, fields: &[FieldDef], tuple_pub: bool) -> String {
 }
 
 fn program_src(p: &Program, instances: &[(String, String)]) -> String {
-    let mut s = String::from("// generated by c07_macro_programs - do not edit\n#![allow(dead_code, non_camel_case_types, unused_imports, deprecated)]\nuse metrique::unit_of_work::metrics;\nuse metrique::{CloseValue, RootEntry};\n\n");
+    let mut s = String::from("// generated by c07_macro_programs - do not edit\n#![allow(dead_code, non_camel_case_types, non_snake_case, unused_imports, deprecated)]\nuse metrique::unit_of_work::metrics;\nuse metrique::{CloseValue, RootEntry};\n\n");
     for d in &p.value_enums {
         let _ = writeln!(s, "{}\nenum {} {{", attrs(d.rename_all, &Pfx::None, "", Some("value(string)".into())), d.name);
         for (id, name) in &d.variants {
